@@ -7,12 +7,16 @@ VERIF = os.path.dirname(os.path.dirname(os.path.abspath(__file__)))
 
 
 def main():
-    rows = ["| seed | property | idea of the change | needs, to manifest | suite green | caught by (quick tier) |", "|---|---|---|---|---|---|"]
+    rows = ["| seed | property | idea of the change | needs, to manifest | suite green | before strengthening | caught by (quick tier, current) |", "|---|---|---|---|---|---|---|"]
     for f in sorted(glob.glob(os.path.join(VERIF, "seeded", "*", "meta.json"))):
         m = json.load(open(f))
         det = ", ".join(f"{d['check']} ({d['violation_lines']}{'+' if d['violation_lines'] >= 50 else ''} lines, {d['wall_s']} s)" if d["exit"] == 1 else f"{d['check']}: MISSED" for d in m.get("detected_by", []))
         ok = "yes" if m["confirmed"]["pinned_suite_all_152_stable_tests_pass"] else "NO (randomised test fails)"
-        rows.append(f"| {m['id']} | {m['property']} | {m['what']} | {m['needs_to_manifest']} | {ok} | {det or 'not evaluated'} |")
+        if "detected_before_strengthening" in m:
+            bef = ", ".join(f"{d['check']} " + ("caught" if d["exit"] == 1 else "MISSED" if d["exit"] == 0 else "machinery failure") for d in m["detected_before_strengthening"])
+        else:
+            bef = "(round 1: see notes below)"
+        rows.append(f"| {m['id']} | {m['property']} | {m['what']} | {m['needs_to_manifest']} | {ok} | {bef} | {det or 'not evaluated'} |")
     table = "\n".join(rows)
     p = os.path.join(VERIF, "DESIGN.md")
     s = open(p).read()
